@@ -173,3 +173,11 @@ mircheck("C20", "Metrics count what happened", SYMEX,
          [m("metrics_scn", "actor kept / stopped / killed; 3 messages, handler with one await; <= 2 clock advances of symbolic length <= 5 ns at any point", "message_count = handler entries (stop marker, leftovers excluded); avg <= max; snapshot = accessors; max >= any advance that happened inside a completed handler (z3); same values through a weak-upgraded handle")],
          "see scenario", "wall-clock time (virtual clock); concurrent readers on real threads", "the real MetricsCollector / MessageProcessingGuard code is interpreted; Instant is the virtual clock",
          feats=("metrics",))
+
+for _pid in ("C01", "C02", "C06", "C08", "C09"):
+    CHECKS[_pid]["groups"][-1]["scenarios"].append(m("burst", "one sender, 12 (thorough 20) back-to-back tells + a final ask into a mailbox that holds them all; on_run periodic or one-shot; optionally a kill / stop() from a second task", "threshold-dependent behaviour (batching, burst limits) under the same monitors"))
+CHECKS["C12"]["groups"].append({"engine": "mir", "features": ["deadlock-detection"], "attribute_all": True, "scenarios": [
+    m("failing_alone", "the same crash points with the deadlock-detection feature compiled in", "a panic (also the deliberate deadlock panic) leaves the wait-for graph and its lock usable by the survivors"),
+    m("deadlock_sound", "includes: the caller panics while its ask is in flight, later the callee asks the dead caller", "no stale edge, no spurious deadlock panic in the survivor"),
+    m("deadlock_cycles", "after the deliberate panic every participant goes on")]})
+CHECKS["C15"]["groups"][-1]["scenarios"][0]["bounds"] += "; + caller panics mid-ask then reverse ask"
